@@ -245,6 +245,9 @@ fn describe(label: &str, r1: &Reject, n1: u64, r2: &Reject, n2: u64) -> String {
 fn restart_probes(spec: &DistSpec) -> Option<u128> {
     let bits = |ids: &[u8]| ids.iter().fold(0u128, |m, i| m | (1u128 << i));
     match spec.family {
+        // the geometry samplers have no probes: a candidate is 2 (3) words, so more words
+        // than that means a rejection (mask 0 = "decide by the word count")
+        Family::UnitCircle | Family::UnitDisc | Family::UnitSphere | Family::UnitBall => Some(0),
         Family::Beta => Some(bits(&[18, 19, 21, 23])),
         // shape >= 1 (Marsaglia-Tsang on a normal); ziggurat wedge rejections of that
         // normal (4) restart the first draw of the call as well
@@ -287,7 +290,12 @@ pub fn restart_equivalence(spec: &DistSpec, calls: u64, seed: u64) -> Result<(u6
         };
         let mask = rand_distr::verif_hooks::take_probes();
         let n = rng.pos - start.pos;
-        if mask & mask_reject == 0 || n < 2 {
+        let rejected_here = if mask_reject == 0 {
+            n > if spec.family == Family::UnitBall { 3 } else { 2 }
+        } else {
+            mask & mask_reject != 0
+        };
+        if !rejected_here || n < 2 {
             continue;
         }
         rejected += 1;
@@ -1226,6 +1234,7 @@ impl Engine for LawEngine {
             Job::Geometry(spec, n) => match geometry_test(spec, *n, seed) {
                 Err(e) => res.notes.push(format!("skipped: {e}")),
                 Ok((o, tests)) => {
+                    restart_stage(&mut res, spec, ctx, seed, "geometry", *n);
                     absorb(&mut res, &o);
                     res.stat_sum("law_tests", tests as f64 - 1.0);
                     res.stat_max(&format!("words_per_sample:{}", spec.label()), o.words as f64 / o.samples.max(1) as f64);
@@ -1249,7 +1258,7 @@ impl Engine for LawEngine {
         let c: LawCase = serde_json::from_value(case.clone()).map_err(|e| format!("bad replay case: {e}"))?;
         let n_central = if ctx.tier == Tier::Thorough { 1024 } else { 256 };
         println!("replay: {} {} N={} M={} seed={}", c.kind, c.spec.label(), c.n, c.m, c.seed);
-        if matches!(c.kind.as_str(), "law-cont" | "law-disc") {
+        if matches!(c.kind.as_str(), "law-cont" | "law-disc" | "geometry") {
             let calls = if ctx.tier == Tier::Thorough { 200_000 } else { 20_000 };
             if let (_, rej, Some((class, detail))) = restart_equivalence(&c.spec, calls, c.seed)? {
                 println!("replay: restart equivalence ({rej} rejections examined): outcome class={class}: {detail}");
